@@ -275,4 +275,31 @@ theorem list_sum_nonneg (x : List K) (h : ∀ v ∈ x, 0 ≤ v) : 0 ≤ x.sum :=
 
 end pyramid
 
+section contactForce
+variable {K : Type} [Field K] [LinearOrder K] [IsStrictOrderedRing K] [HasPow K]
+
+theorem getD_map_mul_one (diff : List (V3 K)) (dir : V3 K) (j : Nat) (hj : j < diff.length) :
+    ((diff.map fun dj => V3.dot dj dir).map (· * (1 : K))).getD j 0 = V3.dot diff[j] dir := by
+  rw [List.getD_eq_getElem?_getD]
+  simp [hj]
+
+/-- **the generalized contact force is `Jᵀx = (∂p/∂q̇)ᵀ F`** with `F = Σ_k x_k·dir_k` the pyramid
+force: entry `j` of `con_jac.T @ x` restricted to the four rows of a penetrating contact is
+`diff_j · F` (`diff_j` = relative point velocity of the two bodies per unit `q̇_j`) -/
+theorem contact_jacTx (invw qd : List K) (diff : List (V3 K)) (c : GContact K) (x0 x1 x2 x3 : K)
+    (hd : c.dist < 0) :
+    jacTx diff.length ((contactRows invw qd diff c).map (·.1)) [x0, x1, x2, x3]
+      = tab diff.length fun j => V3.dot (diff.getD j ⟨0, 0, 0⟩) (pyramidForce c [x0, x1, x2, x3]) := by
+  unfold jacTx
+  apply tab_congr
+  intro j hj
+  unfold contactRows pyramidForce
+  simp only [hd, if_true, contactDirs, List.map_cons, List.map_nil, List.zipWith_cons_cons,
+    List.zipWith_nil_right, List.sum_cons, List.sum_nil, getD_map_mul_one _ _ _ hj]
+  rw [List.getD_eq_getElem?_getD, List.getElem?_eq_getElem hj, Option.getD_some]
+  simp only [V3.dot, V3.smul, V3.add_def, V3.neg_def, v3_zero_x, v3_zero_y, v3_zero_z]
+  ring
+
+end contactForce
+
 end Brax.C06L
